@@ -202,8 +202,11 @@ func (n *nni) Undo() (err error) {
 	e2 = n.n2.Edges()[n12index]
 
 	// The root is somwhere in the
-	// clade on the n1_2 side (connected to n2)
-	if e2.Right() == n.n2 {
+	// clade on the n1_2 side (connected to n2),
+	// or (if the tree has been rerooted since Apply) in the
+	// clade that Apply moved from n2 to n1: in both cases
+	// the root changes sides of the n1-n2 edge
+	if e2.Right() == n.n2 || e1.Right() == n.n1 {
 		// Reorient n1-n2 edge
 		n.n1.Edges()[n1n2index].Inverse()
 	}
